@@ -118,6 +118,19 @@ func execC10(t *testing.T, p Plan, src kernel.Source) Result {
 				continue
 			}
 			if i == armAt {
+				if p.X["evict_l1"] != 0 && d.L2 != nil {
+					// the victim's keys are in L2 only when the fault strikes: reads then
+					// back-fill L1 and writes meet an L1 that does not hold the key
+					st1 := d.L1.Fake.Store
+					for _, bk := range st1.LiveKeys() {
+						for _, k := range []string{"a", "bb"} {
+							if bk == k || bk == k+"-meta" || isChunkKeyOf(bk, k) {
+								st1.Evict(bk)
+							}
+						}
+					}
+					res.probe("victim_keys_evicted_from_l1")
+				}
 				w.ArmFor(p.Faults, victim.Name)
 			}
 			if i == victimDone {
@@ -288,6 +301,25 @@ func execC10(t *testing.T, p Plan, src kernel.Source) Result {
 						return
 					}
 				}
+			}
+		}
+		// ... and can write them: nothing the faulted command held is still held
+		for _, k := range sortedKeysK(poss) {
+			val := []byte("after-fault-" + k)
+			set := wire.Op{Kind: "set", Key: k, Data: val, Flags: 4}
+			get := wire.Op{Kind: "get", Keys: []string{k}, Quiets: []bool{false}}
+			if fresh.C.ClosedByRend() {
+				fresh = w.Connect("main")
+				w.Settle()
+			}
+			w.Send(fresh, wire.EncodeText(set))
+			w.Send(fresh, wire.EncodeText(get))
+			reply := append([]byte(nil), fresh.Unread()...)
+			fresh.Consume(len(reply))
+			want := fmt.Sprintf("STORED\r\nVALUE %s 4 %d\r\n%s\r\nEND\r\n", k, len(val), val)
+			if string(reply) != want {
+				viol(len(p.Steps), "later_write_failed", fclass+"/"+p.Cfg.L1, "%s: after the fault a fresh client's set %q / get %q got %q (closed=%v)", faultDesc, k, k, trunc(reply), fresh.C.ClosedByRend())
+				return
 			}
 		}
 		if len(w.Stat.FaultsFired) == 0 {
@@ -469,6 +501,19 @@ func enumC10(tier string) []Plan {
 							}
 							p.Faults = []kernel.Fault{f}
 							out = append(out, p)
+							// the same case with the victim's keys evicted from L1 (reads then
+							// back-fill L1 under the fault), under the locking wrapper in half of
+							// them: every third case of the two-tier deployments
+							if cfg.HasL2() && (tier == "thorough" || n%3 == 0) {
+								q := p.Clone()
+								q.Seed += 1 << 32
+								q.X["evict_l1"] = 1
+								if n%2 == 1 {
+									q.Cfg.Locked = true
+									q.Cfg.MultiReader = n%4 == 1 && cfg.L1 != "chunked"
+								}
+								out = append(out, q)
+							}
 						}
 					}
 				}
@@ -486,6 +531,7 @@ func genC10(seed uint64, tier string) Plan {
 		cfg.MultiReader = g.p(1, 2) && cfg.L1 != "chunked"
 		cfg.Concurrency = uint8(g.n(2))
 	}
+	evict := g.p(1, 3)
 	proto := pick(g, []string{"text", "bin"})
 	progs := c10VictimPrograms(proto)
 	prog := append([]wire.Op{}, pick(g, progs)...)
@@ -503,6 +549,9 @@ func genC10(seed uint64, tier string) Plan {
 		p.Conns[0].Port = "batch"
 	}
 	p.Seg = pick(g, []int{0, 0, 2})
+	if evict {
+		p.X["evict_l1"] = 1
+	}
 	tr := "l1"
 	if cfg.HasL2() && g.p(1, 2) {
 		tr = "l2"
@@ -516,7 +565,7 @@ func init() {
 	register(&Prop{
 		ID: "C10", Gen: genC10, Exec: execC10, Enumerate: enumC10, Level: "fault_enumeration",
 		Nontrivial: func(p Plan, r Result) bool { return !r.Trivial },
-		Rule:       "one backend fault per run, addressed by (tier, index of the backend request counted from the start of the victim's program, kind): each of the 8 memcached error statuses that are refusals rather than statements about the key (E2BIG, EINVAL, UNKNOWN_COMMAND, ENOMEM, NOT_SUPPORTED, INTERNAL, BUSY, TMPFAIL; NOT_FOUND / EXISTS / NOT_STORED occur only truthfully) with its text body, connection closed before the request is applied / after it is applied but before the reply / after n reply bytes (n in {1, 23, 24, 26, 28, 30, 60}) / after the reply, each with EPIPE or silent write mode (36 faults per position). Enumerated part: 22 text / 27 binary victim programs (every command kind on present and absent keys, 3-chunk values, multi-key and quiet gets, 1-3 commands) x 6 deployments (L1-only / L1L2 / batch port x direct or chunked L1) x tier x request index 0..3 (0..9 on a chunked tier) x the 36 faults (thorough: all; quick: a rotating sixth); positions that the program never reaches count as trivial. Seeded part: drawn combinations, also under the locking wrapper and with segmentation. Oracle: victim gets a complete well-formed reply or its connection is closed (never quiescent with a request outstanding; a spinning goroutine is caught by the worker watchdog), an aborted connection has all its backend sockets closed, the bystander connection's replies equal the reference map's, and afterwards fresh connections read for every key only values allowed by a model in which unacknowledged writes may or may not have happened - never the value from before an acknowledged write or delete. Non-trivial = the fault fired; distinct = distinct plan hash",
+		Rule:       "one backend fault per run, addressed by (tier, index of the backend request counted from the start of the victim's program, kind): each of the 8 memcached error statuses that are refusals rather than statements about the key (E2BIG, EINVAL, UNKNOWN_COMMAND, ENOMEM, NOT_SUPPORTED, INTERNAL, BUSY, TMPFAIL; NOT_FOUND / EXISTS / NOT_STORED occur only truthfully) with its text body, connection closed before the request is applied / after it is applied but before the reply / after n reply bytes (n in {1, 23, 24, 26, 28, 30, 60}) / after the reply, each with EPIPE or silent write mode (36 faults per position). Enumerated part: 22 text / 27 binary victim programs (every command kind on present and absent keys, 3-chunk values, multi-key and quiet gets, 1-3 commands) x 6 deployments (L1-only / L1L2 / batch port x direct or chunked L1) x tier x request index 0..3 (0..9 on a chunked tier) x the 36 faults (thorough: all; quick: a rotating sixth); positions that the program never reaches count as trivial; a third of the two-tier cases (thorough: all) are repeated with the victim's keys evicted from L1 beforehand, half of those under the locking wrapper, so that reads back-fill L1 under the fault. Seeded part: drawn combinations, also under the locking wrapper, with evicted keys and with segmentation. Oracle: victim gets a complete well-formed reply or its connection is closed (never quiescent with a request outstanding; a spinning goroutine is caught by the worker watchdog), an aborted connection has all its backend sockets closed, the bystander connection's replies equal the reference map's, and afterwards fresh connections read for every key only values allowed by a model in which unacknowledged writes may or may not have happened - never the value from before an acknowledged write or delete - and can then overwrite every key (set / get answered STORED and the new value: nothing the faulted command held is still held). Non-trivial = the fault fired; distinct = distinct plan hash",
 		Real:       append(append([]string{}, realFullStack...), "handlers/memcached/chunked", "server/utils.go abort"),
 		Stub:       stubFullStack,
 		FaultKinds: []string{"status", "close_before", "close_applied", "close_mid", "close_after"},
